@@ -16,6 +16,7 @@ PROPS = {}
 
 # ------------------------------------------------------------------------------------------------ C13
 PROPS['C13'] = dict(
+    technique='exhaustive sweep of all 2^32 phases per message-space size, every M in [2,2^15] on the boundary alphabet, all mu, all 2^32 values for the conversion identity; 128-bit integer rounding oracle',
     level='exploration',
     rule='cases = (M, 2^24-phase chunk) for the full sweeps, (M) for boundary/round-trip sweeps, (2^24 chunk) for the '
          'double<->torus identity; evaluations = phases evaluated; non-trivial = phase within 2 units of a rounding boundary '
@@ -24,11 +25,12 @@ PROPS['C13'] = dict(
             'thorough': 'all 2^32 phases for 13 M incl. 2^30; boundary alphabet for every M in [2,2^15] and all powers of two to 2^30; all mu; all 2^32 torus values for the conversion identity'},
     assumptions=['the functions are pure (no state): debug/optim and the five back-ends share one translation unit, checked on optim and debug of spqlios-fma',
                  'Msize is an int32_t: 2^31 is not a value of the parameter type (interval width 0 -> division by zero), largest power of two is 2^30'],
-    jobs=lambda tier, seed: J('c13.cpp', 'optim', n=16) + (J('c13.cpp', 'debug', n=16) if tier == 'thorough' else J('c13.cpp', 'debug', n=8, args=['debugsub=1'])),
+    jobs=lambda tier, seed: J('c13.cpp', 'optim', n=16) + (J('c13.cpp', 'debug', n=16) if tier == 'thorough' else J('c13.cpp', 'debug', n=8, args=['ms=2048,3', 'light=1'])),
 )
 
 # ------------------------------------------------------------------------------------------------ C12
 PROPS['C12'] = dict(
+    technique='exhaustive sweep of all 2^32 torus values per decomposition layout; digit-relation oracle; vector-vs-scalar build digests compared',
     level='exploration',
     rule='cases = (layout, 2^24-value chunk): every one of the 2^32 torus values decomposed (1024 consecutive values per polynomial) '
          'and checked against the digit relation; (layout) position sweep: 2^16 values at all positions; (layout,k) TLWE wrapper. '
@@ -49,6 +51,7 @@ def _c11(tier, seed):
     jobs += J('c06.cpp', 'optim', n=1, args=['part=sched', 'scenario=K-', 'threads=' + ('2' if tier == 'quick' else '3')], ldflags='-ldl')
     return jobs
 PROPS['C11'] = dict(
+    technique='all exponents a in [0,2N) for every N, all basis pairs (bilinear completeness), extreme vectors, guard pages; all 2-thread schedules with <= 2 preemptions for concurrent Karatsuba products',
     level='exploration',
     rule='cases = (N, a) for the three monomial routines on 7 contents; (N) group law X^a X^b; (N, i) basis rows: all pairs (X^i, c X^j) '
          'through Naive/Karatsuba/AddMulR/SubMulR; (N, content_a, content_b) full vectors; (N, c1, c2) coefficient-wise ops x 9 scalars. '
@@ -72,6 +75,7 @@ def _c14(tier, seed):
         jobs += J('c14.cpp', 'optim', backend='fftw', n=4, env={'VF_GUARD': 'after'}, **g)
     return jobs
 PROPS['C14'] = dict(
+    technique='exhaustive enumeration of dimension x operation x scalar x aliasing x content with exact wrapping-arithmetic oracle under guard pages (after/before) and ASan; every extraction index',
     level='exploration',
     rule='cases = (n, op, p, aliasing, content1, content2) for 8 LWE ops, n in 1..40 + {500,630,1023,1024,1025,2048}; (N,k,op,variant,content) for 10 TLWE ops, '
          'N in 2..1024, k in 1..3 (all a in [0,2N) for N<=64); (N,k,content,j) extraction for every j. Non-trivial = n not a multiple of 8, or n<8, or p not in {0,1}; all TLWE/extraction cases. '
@@ -94,6 +98,7 @@ def _c08(tier, seed):
         jobs = J('c08.cpp', 'optim', n=16, args=['part=sweeps']) + jobs[14:]
     return jobs
 PROPS['C08'] = dict(
+    technique='exhaustive sweep over all 2^32 values of a mask coefficient per digit layout with an exact-equality oracle (row errors known from the secret keys); dimension pairs under guard pages',
     level='exploration',
     rule='cases = (layout, n_out, key kind, key bit, 2^24 chunk of the mask coefficient a) with n_in=1: every a of the chunk (or of a residue class) '
          'through lweKeySwitch; boundary alphabet (+-64 around every digit-carry boundary, 0, 2^31, 2^32-1) for 10 layouts x {noiseless, noisy key}; '
@@ -107,6 +112,7 @@ PROPS['C08'] = dict(
 
 # ------------------------------------------------------------------------------------------------ C19
 PROPS['C19'] = dict(
+    technique='exhaustive enumeration of lambda in [-5,300] + extremes (one child each) and all 64 request histories over {1,80,81,128}; field-by-field oracle against the documented sets',
     level='exploration',
     rule='cases = lambda in [-5,300] + {INT32_MIN, INT32_MAX}, each in a forked child, per library variant, plus all 64 ordered triples over {1,80,81,128} requested in one process; oracle: SIGABRT outside [1,128]; documented 80-bit set '
          'for 1..80 and documented 128-bit set (README table) for 81..128 field by field; derived fields recomputed; structural constraints; formula noise <= bound and >= 12 sigma margin. every case is non-trivial',
@@ -118,6 +124,7 @@ PROPS['C19'] = dict(
 
 # ------------------------------------------------------------------------------------------------ C20
 PROPS['C20'] = dict(
+    technique='exhaustive enumeration of configurations: 10 libraries x every API function, every header x {C99,C++11}, every public structure field (sizeof/offsetof C vs C++), 20 behavioural dumps',
     level='exploration',
     rule='cases = (API function) x 10 libraries [defined-with-C-linkage must agree], (header, language) compiled alone, (structure|field) sizeof/offsetof C vs C++, '
          '(language, build, back-end) behavioural dump, spqlios assembly offsets. The API, the header closure and the structure list are computed from the working tree at check time. '
@@ -139,6 +146,7 @@ def _c10(tier, seed):
             jobs += J('c10.cpp', 'debug', be, n=6, args=['part=basis'])
     return jobs
 PROPS['C10'] = dict(
+    technique='complete bilinear-basis sweep (all 1024^2 monomial pairs in the thorough tier) plus the full cross product of worst-case magnitude patterns on five back-ends, against the exact negacyclic product',
     level='exploration',
     rule='cases = (i) basis rows: (B X^i)*(c X^j) for the enumerated j and (B,c) combos through torusPolynomialMultFFT; (B, int pattern, torus pattern, seed) through Mult/AddMulR/SubMulR; '
          '(torus pattern pair) round trip, AddTo, Clear, Set/AddTorusConstant, Mul, AddMul/SubMul accumulation of 2..8 products. non-trivial = both operands non-zero (all cases). '
@@ -158,6 +166,7 @@ def _c03(tier, seed):
         jobs += J('c03.cpp', 'optim', be, n=3) + J('c03.cpp', 'debug', be, n=3, args=['K=1'])
     return jobs
 PROPS['C03'] = dict(
+    technique='exhaustive enumeration of scheme x dimension x message space (all messages) x noise level x key seed, plus all decrypt histories over parameter-set pairs; exact-equality oracle',
     level='exploration',
     rule='cases = (scheme, dimension, Msize, noise level index, key seed): all messages of [0,Msize) for Msize<=64 ({0,1,M/2,M-1} above) for LWE and TLWE-constant, '
          'a polynomial message carrying every message for TLWE/TGSW; trivial samples under several keys; 2000 fresh gate ciphertexts per default set. '
@@ -178,6 +187,7 @@ def _c05(tier, seed):
         jobs += J('c05.cpp', 'debug', 'fftw', n=4, args=['part=history'])
     return jobs
 PROPS['C05'] = dict(
+    technique='exhaustive enumeration of object type x parameter/content alphabets x transport x concatenation histories (all ordered pairs/triples); byte-exact round-trip oracle',
     level='exploration',
     rule='cases = (dimension tuple, real-valued parameter tuple, content pattern, object type, transport) for the 13 stand-alone types; (reals, content, type, transport) for cloud/secret key sets at N=1024; '
          'the two default parameter sets; every ordered pair (thorough: triple) of the 15 types written back-to-back into one stream. oracle: field-for-field equality (doubles bit-for-bit, arrays memcmp, '
@@ -197,6 +207,7 @@ def _c18(tier, seed):
     jobs += J('c18.cpp', 'debug', 'fftw', n=4)
     return jobs
 PROPS['C18'] = dict(
+    technique='exhaustive fault enumeration: every proper prefix of every export (every crash point of the writer), every title/tag byte x 5 replacements, all 15x14 type substitutions, each import isolated; faithfulness oracle',
     level='fault_enumeration',
     rule='cases = (type, transport, prefix length) for every proper prefix of every export (every crash point of the writer); (type, transport, offset, replacement byte) for every byte of every title line '
          'and binary type tag x {0x00,0xFF,b+1,b-1,newline}; (type A, importer B != A, transport) substitutions. each import in a forked child. violation = normal return (clean stream) with an object that is not a '
@@ -211,6 +222,7 @@ PROPS['C18'] = dict(
 
 # ------------------------------------------------------------------------------------------------ C17
 PROPS['C17'] = dict(
+    technique='enumeration of parameter set x key seed x transport x export order / multi-key-set sequences with exact size, prefix and every-offset substring-search oracles; entropy and file access interposed',
     level='exploration',
     rule='cases = (parameter set, key seed, transport): both default sets and four small custom sets (n in {8,9}, k in {1,2}, N=1024). oracle: exact length formula from the parameters; key-switch '
          'section = three public integers; cloud bytes strict prefix of the secret export, remainder = exactly the two key sections; LWE key / every ring key polynomial / concatenated ring key '
@@ -230,6 +242,7 @@ def _c01(tier, seed):
         jobs += J('c01.cpp', 'debug', be, n=4, args=['K=1', 'kinds=3'], deadline=2400, timeout=3000)
     return jobs
 PROPS['C01'] = dict(
+    technique='exhaustive enumeration of gate x truth row x input-kind tuple (fresh, trivial, bootstrapped, adversarial at the admissible limit, rounded-phase-0) x parameter-set history on the real library; truth-table and exact rounded-phase oracle',
     level='exploration',
     rule='cases = (parameter set, key seed, gate, truth row, input kind per wire) on one library variant per job; kinds: F fresh, P+/P- fresh with the true phase moved to +-1/8 +- (1/32 - 2^-20), T trivial, B output of a bootstrapped gate. '
          'oracle: bootsSymDecrypt == truth table; harness-side exact rounded phase p of the internal combination in the right half circle; output error < 1/32. non-trivial = bootstrapping gate with at least one non-trivial input',
@@ -250,6 +263,7 @@ def _c04(tier, seed):
         jobs += J('c04.cpp', 'debug', 'nayuki-portable', n=8, args=['part=main'], deadline=2400, timeout=3000)
     return jobs
 PROPS['C04'] = dict(
+    technique='exhaustive sweep of all 2N rounded phases / boundary targets per configuration with harness-built exact keys; analytic error-budget oracle; guard pages and ASan for n > N',
     level='exploration',
     rule='cases = (group, configuration, input) with the rounded phase p predicted by the harness: trivial samples over all 2N cells (centre + both rounding edges) x 6 mu; n=1: every rounded mask value x boundary set of p; '
          'seeded/wrap-around masks of dimension n in {2,3,8,9,1100} with b solved so that p hits the target set; general test polynomials (constant, spikes, ramp, seeded) through blindRotateAndExtract[_FFT]; k in {1,2}, '
@@ -272,6 +286,7 @@ def _c09(tier, seed):
     jobs += J('c09.cpp', 'debug', 'fftw', n=6, deadline=2400, timeout=3000, args=['part=rotate'])
     return jobs
 PROPS['C09'] = dict(
+    technique='enumeration of message x TLWE content x layout x variant with harness-built TGSW rows of known error: exact phase identity against the analytic bound; all exponent vectors over the boundary alphabet',
     level='exploration',
     rule='cases = (k, l, Bgbit, row kind, message m, position j, TLWE content) through the three external-product variants; (n, k, l, Bgbit, exponent vector) through tfhe_blindRotate[_FFT]. TGSW rows are built by the harness '
          'with exact arithmetic and known errors e_p. oracle: phase(result) - m*phase(c) - sum dec_p*e_p within |m|_1 (1+kN) 2^(32-l Bgbit) + FFT budget (exact gadget + noiseless rows: FFT rounding only); variants agree at ciphertext level; '
@@ -291,6 +306,7 @@ def _c15(tier, seed):
             jobs += J('c15.cpp', 'optim', be, n=6)
     return jobs
 PROPS['C15'] = dict(
+    technique='exhaustive enumeration of gate x truth row x aliasing pattern and of 17 evaluation functions x parameter cells, with byte-snapshot / deep-hash / generator-state oracles',
     level='exploration',
     rule='cases = (key set, gate, truth row, aliasing pattern) with patterns: unary {A,R}; binary {AB,RB,AR,AA,RR}; MUX {ABC,RBC,ARC,ABR,AAC,ABB,ABA,AAA,RRC,ARR,RBR,RRR} (R = the result object); '
          '(parameter cell, evaluation function, content) for 17 evaluation functions. oracle: aliased result bytes == result of the same call on distinct copies; every non-result input byte-identical; deep hash of the '
@@ -377,6 +393,7 @@ def _c07(tier, seed):
         jobs += J('c07.cpp', 'optim', 'fftw', n=6, args=['part=objects', 'K=2'], ldflags='-ldl', deadline=2400, timeout=3000) + J('c07.cpp', 'debug', 'nayuki-portable', n=3, args=['part=seeding'], ldflags='-ldl')
     return jobs
 PROPS['C07'] = dict(
+    technique='exhaustive sweep of all 2^31-2 generator states (population moments judged on merged sums), enumerated key-seed range with stratified 8-estimator-sigma bands, all re-seeding histories over an 11-operation alphabet',
     level='exploration',
     rule='(a) every state of the library generator (minstd_rand0, 2^31-2 states; quick: the residue class VERIF_SEED mod 64): one gaussian32 draw per sigma, a uniform torus draw and its successor, a key bit, two lweSymEncrypt (n=2); '
          'population moments judged on the merged sums (mean, stdev/sigma, kurtosis, tails, byte histograms, lag-1 correlation). (b) (parameter set, key seed): error of every key-switching row and every bootstrapping-key coefficient '
@@ -435,6 +452,7 @@ def _c16(tier, seed):
             jobs += J('c16.cpp', 'vg', be, n=6, args=['part=cells', 'cells=small'], cxxflags='-DVF_NO_GUARDALLOC', wrapper=VG, crash_is_violation=True, deadline=2400, timeout=3000)
     return jobs
 PROPS['C16'] = dict(
+    technique='enumeration of the configuration matrix x complete API lifecycles x deletion orders and of thread create/use/exit histories under fault oracles: guard pages, ASan+UBSan, fill-pattern A/B digests, live-allocation steady state, memcheck',
     level='fault_enumeration',
     rule='cases = (n, k, l, Bgbit, t, basebit) cells of the configuration matrix x a complete API lifecycle (keygen, encrypt, 14 gates, export/import on both transports, gates with the imported keys, secret-key round trip, array allocators '
          'with 0/1/3 elements, the four deletions in one of the 24 orders - all 24 on the small default-layout cells -, collector finalize), run twice; (concurrent threads, FFT uses) thread create/use/exit histories x 5 back-ends. '
